@@ -52,9 +52,10 @@ TABLE = {
                                "ok_document_shape", "ok_no_text_before_root"], "Local Notation token := Tokenizer.token."),
            ("WfParse.v", ["parse_comments_ok", "parse_names_are_names", "parse_all_chars", "parse_doc_wf"])]),
  "C03": dict(
-   intro="C03 -- elements, comments and PIs mirror the document's logical structure.  Lexer post-conditions\n   (with a token recorder as callback): a comment token's text is exactly the source between '<!--' and\n   '-->'; a PI's target and value are the source strings (value without leading whitespace, None when\n   empty); CDATA / text tokens are their source slices; the DOCTYPE and the prolog / epilog deliver only\n   comments, PIs (and entity declarations); a start tag delivers ElementStart, attributes, one ElementEnd.\n   The XML declaration has no callback at all.  Document-level token shape: Proofs/RejectProofs.v.\n   The composition 'rendering of an abstract document parses to its tree' is not proved (correspondence).",
-   imports=["From RX.Proofs Require Import LexerProofs RejectProofs."],
-   groups=[("LexerProofs.v", ["parse_comment_post", "parse_pi_post", "parse_cdata_post", "parse_text_post", "parse_close_element_post",
+   intro="C03 -- elements, comments and PIs mirror the document's logical structure.  Lexer post-conditions\n   (with a token recorder as callback): a comment token's text is exactly the source between '<!--' and\n   '-->'; a PI's target and value are the source strings (value without leading whitespace, None when\n   empty); CDATA / text tokens are their source slices; the DOCTYPE and the prolog / epilog deliver only\n   comments, PIs (and entity declarations); a start tag delivers ElementStart, attributes, one ElementEnd.\n   The XML declaration has no callback at all.  Document-level token shape: Proofs/RejectProofs.v.\n   Completeness on the fragment of Spec/Cst.v (ASCII names and content, no DOCTYPE, references, namespaces, CR): every\n   rendering of a well-formed abstract document -- with any layout choices: whitespace in tags, quote style,\n   empty-element syntax, prolog / epilog comments and PIs -- parses to exactly its meaning (view = sem:\n   kinds, names, attributes in order with values, comment text, PI target / value, text, children counts), so two\n   renderings with the same meaning give the same tree (layout_insensitive).  view is defined in Proofs/CstMain.v.",
+   imports=["From RX.Spec Require Cst.", "From RX.Proofs Require Import LexerProofs RejectProofs CstMain."],
+   groups=[("CstMain.v", ["parse_render_sem", "layout_insensitive"]),
+           ("LexerProofs.v", ["parse_comment_post", "parse_pi_post", "parse_cdata_post", "parse_text_post", "parse_close_element_post",
                               "parse_doctype_tokens", "parse_misc_tokens", "parse_element_tokens"], "Local Notation token := Tokenizer.token.", "forall (text : bytes),"),
            ("RejectProofs.v", ["ok_document_shape", "ok_no_text_before_root"], "Local Notation token := Tokenizer.token.")]),
  "C04": dict(
